@@ -719,6 +719,20 @@ theorem alimerge_rows_stay_aligned (ngapA : List Nat) (gapc : UInt8) (r₁ r₂ 
     (inflate ngapA gapc r₁).length = (inflate ngapA gapc r₂).length := by
   rw [inflate_length ngapA gapc r₁ h₁, inflate_length ngapA gapc r₂ (by omega)]; omega
 
+/-- `update_maxgap_and_maxmis`'s counting: an RF line of `clen` consensus columns has `clen + 1` insert regions, and the region widths
+    together with the consensus columns account for every column exactly once (so the merged length `clen + Σ maxgap` is a column count) -/
+theorem alimerge_insert_regions_partition (rf : Bytes) :
+    (insertWidths rf).length = clenOf rf + 1 ∧ (insertWidths rf).sum + clenOf rf = rf.length :=
+  ⟨insertWidths_length rf, insertWidths_sum rf⟩
+
+/-- merging adds gap characters and nothing else: every character of a merged row is a character of the input row or the gap character -/
+theorem alimerge_adds_only_gaps (ngapA : List Nat) (gapc : UInt8) (row : Bytes) :
+    ∀ c ∈ inflate ngapA gapc row, c ∈ row ∨ c = gapc := inflate_mem ngapA gapc row
+
+/-- the width recorded for an insert region is at least its width in every input (one `ESL_MAX` step) -/
+theorem alimerge_maxgap_dominates (a b : List Nat) (h : a.length = b.length) (i : Nat) :
+    a.getD i 0 ≤ (maxWidths a b).getD i 0 ∧ b.getD i 0 ≤ (maxWidths a b).getD i 0 := maxWidths_ge a b h i
+
 /-- non-vacuity: two alignments with consensus `xxxxx`; the first has a 2-column insert after consensus column 2, the second one
     column in front and two behind: widths (1,0,2,0,0,2); complete output of the tool for this input (checked against the binary) -/
 def exM1 : Bytes := str "# STOCKHOLM 1.0\ns1    AC.gG-U\ns2    ACa.GGU\n#=GC RF xx..xxx\n//\n"
